@@ -84,7 +84,7 @@ def run_worker(ctx):
         if not ctx.mine(i):
             continue
         rng = ctx.rng('w', i)
-        w = W.Walk(ctx, cssutils, 'c09', rng)
+        w = W.Walk(ctx, cssutils, 'c09', rng, raising=(i % 4 != 3))
         w.start(rng.choice(W.SEEDS))
         ctx.count('evaluations')
         for _ in range(rng.randint(10, 60)):
@@ -97,7 +97,7 @@ def replay(ctx, case):
     cssutils, _ = core.import_repo()
     import random
 
-    w = W.Walk(ctx, cssutils, 'c09', random.Random(0), focus=case.get('focus'))
+    w = W.Walk(ctx, cssutils, 'c09', random.Random(0), focus=case.get('focus'), raising=case.get('raising', True))
     w.start(case['seed'])
     for op in case['ops']:
         if not w.step(list(op)):
